@@ -289,7 +289,12 @@ func TestVerifC12Hostile(t *testing.T) {
 			// (validators that run inside the validation workers instead of goroutines of their own: a worker then also hands the
 			// validated message back to the event loop itself)
 			inlineVal := c.Chance(0.4)
-			opts := []Option{WithDefaultValidator(NewBasicSeqnoValidator(store, c20Discard), WithValidatorInline(inlineVal)), WithMaxMessageSize(1 << 20)}
+			defOpts := []ValidatorOpt{WithValidatorInline(inlineVal)}
+			if !inlineVal && c.Chance(0.3) {
+				// one or two runs of the default validator at a time: a slot that is never given back starves everybody
+				defOpts = append(defOpts, WithValidatorConcurrency(c.Range(1, 2)))
+			}
+			opts := []Option{WithDefaultValidator(NewBasicSeqnoValidator(store, c20Discard), defOpts...), WithMaxMessageSize(1 << 20)}
 			if filter != nil {
 				opts = append(opts, WithSubscriptionFilter(filter))
 			}
